@@ -45,7 +45,8 @@ FILES = {'pair': pair_file, 'eam': eam_file}
 KEYS = {
     'pair': [('Pair', 'O-O', ['as.lj 0.2 2.5', 'as.morse 1.8 2.0 0.6']), ('Pair', 'U - O', ['as.lj 0.3 2.2']), ('Pair', 'Th-O', ['as.lj 0.4 2.1']),
              ('Tabulation', 'nr', ['5']), ('Tabulation', 'dr', ['0.25']), ('Potential-Form', 'cbuck(r, A, rho)', ['A*exp(-r/rho)']),
-             ('Table-Form:tf', 'y', ['9 8 7 6']), ('Species', 'O.charge', ['-1.5']), ('NewSection', 'k', ['v']), ('Pair', 'U-U', ['as.zero'])],
+             ('Table-Form:tf', 'y', ['9 8 7 6']), ('Species', 'O.charge', ['-1.5']), ('NewSection', 'k', ['v']), ('Pair', 'U-U', ['as.zero']),
+             ('Variables', 'newvar', ['1.5'])],
     'eam': [('EAM-Embed', 'U', ['>=0 as.polynomial 0.5 -2.0']), ('EAM-Density', 'U', ['>=0 as.polynomial 1.0 0.5']), ('EAM-Density', 'Th', ['as.zero']),
             ('Pair', 'U-O', ['>=0 as.morse 1.0 2.0 0.5']), ('Species', 'U.lattice_constant', ['5.5']), ('Tabulation', 'nrho', ['4'])],
 }
